@@ -322,7 +322,7 @@ func c02Part(r *fw.Rand, kind model.Kind, layout geom.Layout) *model.G {
 func c02History(c *fw.Ctx, idx int) {
 	r := c.R
 	kind := c02Kinds[r.Intn(len(c02Kinds))]
-	layout := c02Layouts[r.Intn(len(c02Layouts))]
+	layout := gen.PickLayout(r, c02Layouts)
 	a := newTracked(kind, layout, r.Intn(3)*4326)
 	b := newTracked(kind, layout, 1+r.Intn(5))
 	if r.Chance(1, 3) && kind != model.Collection {
@@ -603,6 +603,92 @@ func c02History(c *fw.Ctx, idx int) {
 			forcePush = 4
 		default:
 			hist = append(hist, name+".sweep")
+			if mp, ok := cur.t.(*geom.MultiPolygon); ok && cur.numParts() > 0 && r.Chance(1, 3) {
+				// a polygon handed out by the accessor has end offsets of its own (they are
+				// re-based): the caller overwrites them and pushes an empty ring onto the
+				// part (no coordinate is appended) - the multi-polygon must not notice
+				i := r.Intn(cur.numParts())
+				hist[len(hist)-1] = fmt.Sprintf("overwrite the Ends() of %s.Polygon(%d) and push an empty ring onto it", name, i)
+				setIn()
+				if c.Guard("panic", func() {
+					pg := mp.Polygon(i)
+					e := pg.Ends()
+					for j := range e {
+						e[j] = -5150
+					}
+					pg = mp.Polygon(i)
+					pg.Push(geom.NewLinearRing(pg.Layout()))
+					pg.Push(geom.NewLinearRing(pg.Layout()))
+				}) {
+					return
+				}
+				c.Count("op_scribble_on_part_ends")
+			} else if kind != model.Collection && r.Chance(1, 4) {
+				// the geometry is given the coordinates it already has, through SetCoords:
+				// the same list of parts, stored the way the setter lays it out rather
+				// than the way a history of pushes does
+				hist[len(hist)-1] = fmt.Sprintf("%s.SetCoords(%s.Coords())", name, name)
+				setIn()
+				var err error
+				if c.Guard("panic", func() { err = setCoordsOn(cur.t, cur.m) }) {
+					return
+				}
+				if err != nil {
+					c.Fail("setcoords-error", "SetCoords of the geometry's own coordinates failed: %v", err)
+					return
+				}
+				c.Count("op_setcoords_own_coords")
+			}
+			if gc, ok := cur.t.(*geom.GeometryCollection); ok && !cur.m.Fixed && r.Bool() {
+				// several members pushed in one call from a slice the caller keeps and
+				// reuses afterwards; or the other collection's own member slice
+				oth := b
+				if cur == b {
+					oth = a
+				}
+				var list []geom.T
+				var models []*model.G
+				fromOther := r.Chance(1, 3) && oth.numParts() > 0 && !oth.m.Fixed
+				if fromOther {
+					list = oth.t.(*geom.GeometryCollection).Geoms()
+					for _, m := range oth.m.Members {
+						models = append(models, m.Clone())
+					}
+					hist[len(hist)-1] = fmt.Sprintf("%s.Push(the other collection's Geoms()...)", name)
+				} else {
+					n := r.Range(1, 4)
+					list = make([]geom.T, 0, n+r.Intn(4))
+					for j := 0; j < n; j++ {
+						p := c02Part(r, kind, c02Layouts[r.Intn(len(c02Layouts))])
+						list = append(list, p.BuildFlat())
+						models = append(models, p)
+					}
+					hist[len(hist)-1] = fmt.Sprintf("%s.Push(list...) with %d members, the list is reused by the caller afterwards", name, n)
+				}
+				setIn()
+				var err error
+				if c.Guard("panic", func() { err = gc.Push(list...) }) {
+					return
+				}
+				if err != nil {
+					c.Fail("push-error", "Push of several members into a collection without a fixed layout failed: %v", err)
+					return
+				}
+				for _, m := range models {
+					cur.modelPush(m)
+				}
+				if !fromOther {
+					junk := geom.NewPointFlat(geom.XY, []float64{-4242, -4242})
+					for j := range list {
+						list[j] = junk
+					}
+					full := list[:cap(list)]
+					for j := range full {
+						full[j] = junk
+					}
+				}
+				c.Count("op_push_member_list")
+			}
 			if kind != model.Collection && r.Bool() {
 				// the caller keeps and fills an *empty* part it was handed by an accessor
 				// (an empty part has no coordinates to view, so the accessor hands out an
